@@ -228,6 +228,16 @@ def e2e_part(chk, tier, E, fails):
                               "detail": {"flags": gflags, "want": wl[top].strip(), "got": gl[top].strip()}, "key": "line-of-non-call-fault"})
                 gl[top] = wl[top]
                 got = "\n".join(gl) + ("\n" if got.endswith("\n") else "")
+        if want != got and mode == 2:
+            # "created by f in goroutine N" is followed by the position of the `go` keyword, which stands before the call
+            # expression that carries garble's line directive: not restorable either (recorded finding)
+            wl, gl = want.splitlines(), got.splitlines()
+            cb = next((j + 1 for j, l in enumerate(wl) if l.startswith("created by ")), None)
+            if cb is not None and cb < len(wl) and cb < len(gl) and wl[cb] != gl[cb] and re.sub(r":\d+ ", ":N ", wl[cb]) == re.sub(r":\d+ ", ":N ", gl[cb]):
+                fails.append({"why": "the line of the `go` statement in a `created by` frame is not restored by garble reverse",
+                              "detail": {"flags": gflags, "want": wl[cb].strip(), "got": gl[cb].strip()}, "key": "line-of-go-statement"})
+                gl[cb] = wl[cb]
+                got = "\n".join(gl) + ("\n" if got.endswith("\n") else "")
         if want != got:
             wl, gl = want.splitlines(), got.splitlines()
             first = next((j for j, (a, b) in enumerate(zip(wl, gl)) if a != b), min(len(wl), len(gl)))
